@@ -650,6 +650,129 @@ func c20Src(repo, out string, args []string) error {
 	})
 	fmt.Fprintf(&b, "/-- %s  bowyerWatson: panics when this holds -/\ndef minPointsGuard : String := %q\n/-- the first triangle stored (corners as offsets from len(points)) -/\ndef initialTriangle : List String := %s\n/-- the insertion loop `break`s when this holds -/\ndef loopBreak : String := %q\n\n", p.at(bw), guard, c20StrList(initial), brk)
 
+	// ---- the hole-boundary loop of bowyerWatson: for ti, triangle := range badTriangles { for _, edge := range triangle.Edges() {
+	//        notShared := true; for oti, otherTriangle := range badTriangles { if <guard> { for _, otherEdge := range otherTriangle.Edges() {
+	//        if A { if B { notShared = false } } … } } }; if notShared { polygon = append(polygon, edge) } } }
+	var holeErr error
+	sameEdge := []string{}
+	guardSrc, keepSrc := "", ""
+	edgeSym := func(e ast.Expr) (string, bool) {
+		if k, ok := c20Idx(e, "edge"); ok {
+			return fmt.Sprintf("e.%d", k+1), true
+		}
+		if k, ok := c20Idx(e, "otherEdge"); ok {
+			return fmt.Sprintf("f.%d", k+1), true
+		}
+		return "", false
+	}
+	eqOf := func(e ast.Expr) (string, bool) {
+		b, ok := e.(*ast.BinaryExpr)
+		if !ok || b.Op != token.EQL {
+			return "", false
+		}
+		l, ok1 := edgeSym(b.X)
+		r, ok2 := edgeSym(b.Y)
+		if !ok1 || !ok2 {
+			return "", false
+		}
+		return fmt.Sprintf("(%s == %s)", l, r), true
+	}
+	ast.Inspect(bw.Body, func(n ast.Node) bool {
+		rs, ok := n.(*ast.RangeStmt)
+		if !ok || holeErr != nil {
+			return true
+		}
+		v, _ := rs.Value.(*ast.Ident)
+		if v == nil {
+			return true
+		}
+		switch v.Name {
+		case "otherTriangle":
+			// body: one if <guard> { for otherEdge … }
+			if len(rs.Body.List) != 1 {
+				holeErr = fmt.Errorf("%s: the loop over other bad triangles has %d statements, expected 1", p.at(rs), len(rs.Body.List))
+				return false
+			}
+			is, ok := rs.Body.List[0].(*ast.IfStmt)
+			if !ok || is.Else != nil {
+				holeErr = fmt.Errorf("%s: expected `if ti != oti && notShared { … }`", p.at(rs))
+				return false
+			}
+			var gb strings.Builder
+			gx, gok := is.Cond.(*ast.BinaryExpr)
+			if !gok || gx.Op != token.LAND {
+				holeErr = fmt.Errorf("%s: unsupported guard of the other-triangle loop", p.at(is))
+				return false
+			}
+			for i, side := range []ast.Expr{gx.X, gx.Y} {
+				if i > 0 {
+					gb.WriteString(" && ")
+				}
+				switch sx := side.(type) {
+				case *ast.Ident:
+					gb.WriteString(sx.Name)
+				case *ast.BinaryExpr:
+					l, ok1 := sx.X.(*ast.Ident)
+					r, ok2 := sx.Y.(*ast.Ident)
+					if !ok1 || !ok2 {
+						holeErr = fmt.Errorf("%s: unsupported guard of the other-triangle loop", p.at(is))
+						return false
+					}
+					gb.WriteString(l.Name + " " + sx.Op.String() + " " + r.Name)
+				default:
+					holeErr = fmt.Errorf("%s: unsupported guard of the other-triangle loop", p.at(is))
+					return false
+				}
+			}
+			guardSrc = gb.String()
+		case "otherEdge":
+			for _, st := range rs.Body.List {
+				outer, ok := st.(*ast.IfStmt)
+				if !ok || outer.Else != nil || len(outer.Body.List) != 1 {
+					holeErr = fmt.Errorf("%s: unsupported statement in the edge comparison loop", p.at(st))
+					return false
+				}
+				inner, ok := outer.Body.List[0].(*ast.IfStmt)
+				if !ok || inner.Else != nil || len(inner.Body.List) != 1 {
+					holeErr = fmt.Errorf("%s: expected a nested if", p.at(outer))
+					return false
+				}
+				as, ok := inner.Body.List[0].(*ast.AssignStmt)
+				if !ok || as.Tok != token.ASSIGN || as.Lhs[0].(*ast.Ident).Name != "notShared" || as.Rhs[0].(*ast.Ident).Name != "false" {
+					holeErr = fmt.Errorf("%s: expected `notShared = false`", p.at(inner))
+					return false
+				}
+				a, ok1 := eqOf(outer.Cond)
+				b2, ok2 := eqOf(inner.Cond)
+				if !ok1 || !ok2 {
+					holeErr = fmt.Errorf("%s: unsupported edge comparison", p.at(outer))
+					return false
+				}
+				sameEdge = append(sameEdge, fmt.Sprintf("(%s && %s)", a, b2))
+			}
+		case "edge":
+			// last statement: if notShared { polygon = append(polygon, edge) }
+			last, ok := rs.Body.List[len(rs.Body.List)-1].(*ast.IfStmt)
+			if ok && len(last.Body.List) == 1 {
+				if id, ok := last.Cond.(*ast.Ident); ok {
+					if as, ok := last.Body.List[0].(*ast.AssignStmt); ok {
+						if call, ok := as.Rhs[0].(*ast.CallExpr); ok && len(call.Args) == 2 {
+							keepSrc = fmt.Sprintf("if %s { %s = append(%s, %s) }", id.Name, as.Lhs[0].(*ast.Ident).Name, call.Args[0].(*ast.Ident).Name, call.Args[1].(*ast.Ident).Name)
+						}
+					}
+				}
+			}
+		}
+		return true
+	})
+	if holeErr != nil {
+		return holeErr
+	}
+	if len(sameEdge) == 0 || guardSrc == "" || keepSrc == "" {
+		return fmt.Errorf("%s: the hole-boundary loop does not have the expected shape (comparisons %d, guard %q, keep %q)", p.at(bw), len(sameEdge), guardSrc, keepSrc)
+	}
+	fmt.Fprintf(&b, "/-- %s  the nested `if`s that clear `notShared` in the hole-boundary loop: edge `e` of a bad triangle and edge `f` of\n    another bad triangle are the same edge (a disjunction of the regenerated conjunctions) -/\ndef edgeSameSrc (e f : Nat × Nat) : Bool :=\n  %s\n/-- the guard under which another bad triangle's edges are compared -/\ndef holeGuard : String := %q\n/-- what happens to an edge no other bad triangle shares -/\ndef holeKeep : String := %q\n\n", p.at(bw), strings.Join(sameEdge, " || "), guardSrc, keepSrc)
+
 	// ---- BowyerWatson: verts[i] = vector3.New(p.X(), 0, p.Y())
 	BW := c20Func(f, "", "BowyerWatson")
 	if BW == nil {
